@@ -37,7 +37,11 @@ RULE = ("pairs of diagrams from one PRNG: sizes 0-7 mostly, 0-16 and 0-40 fewer 
         "shared between the two diagrams, non-finite deaths (+inf mostly; -inf/NaN rarely and then compared with the model only; sometimes a whole side), empty "
         "sides in every accepted form ([], [[]], np.zeros((0,2)), np.array([]), np.array([[]])); 8% integer-valued diagrams handed over as int32/int16/uint8/int64 arrays or Python-int lists whose squared "
         "coordinate differences leave the dtype's range (and integer-valued ordinary cases in those representations); 6% 'large offset, tiny spread' pairs "
-        "(a diagram and a perturbation of it by delta, both translated by T = 1e3..1e6 feature sizes, delta/T ~ 1e-8); a global power-of-two scale 2^-40..2^40 (on top of the per-coordinate 2^-20..2^20 of the dyadic mode); non-trivial = both sides keep a finite "
+        "(a diagram and a perturbation of it by delta, both translated by T = 1e3..1e6 feature sizes, delta/T ~ 1e-8; 60% of them 'wide': T a power of two "
+        "2^20..2^40 or 1e3..1e9 feature sizes and T/delta log-uniform in 1e7..1e12, of which 60% 'paired': no point dropped or added, no diagonal "
+        "points — every point is matched to its perturbed copy); on every pair of this class the value must lie in the ROUNDING INTERVAL of the "
+        "specification value (entry_matrices: exact rational differences, 8 eps per distance entry relative to the entry, 8 eps per diagonal cost "
+        "relative to the point's coordinates, both ends certified by cert.dual, widened by 1e-9 of the value); a global power-of-two scale 2^-40..2^40 (on top of the per-coordinate 2^-20..2^20 of the dyadic mode); non-trivial = both sides keep a finite "
         "point and there are >= 3 finite points in total; distinct by digest of the pair")
 ASSUMPTIONS = [
     "diagrams are (n,2): births finite, deaths finite or +inf (dropped with a warning); the code and the model treat NaN / -inf deaths like +inf, "
@@ -49,6 +53,13 @@ ASSUMPTIONS = [
     "values are compared with tolerance min(1e-9*scale, 1e-9*|reference value| + 32*eps*scale) (scale = largest |coordinate| times the number "
     "of summed rows; the second term is the rounding the rotation leaves in each diagonal-cost entry) — on 'large offset, tiny spread' inputs "
     "that is ~1e-6 of the value instead of 20-100% of it",
+    "verdict on a disagreement (and on every 'large offset' pair): the value must ALSO lie in [min-sum(c - E), min-sum(c + E)] widened by 1e-9 of the "
+    "value, c = the definition's cost matrix from exact rational coordinate differences, E = entrywise rounding bound of evaluating each entry in "
+    "floating point from the given numbers (8 eps * |s - t| for a distance: differences of coordinates are formed first and a difference of nearby "
+    "doubles is exact; 8 eps * max(|b|, |d|) for a diagonal cost: the rotation b*(-sin) + d*cos rounds at the size of the coordinates — on /repo "
+    "wasserstein([[2^30, 2^30 + 2^-13]], []) is off by 1.4e-3 of its value and wasserstein([[-2^30, -2^30]], []) = -1.2e-7, which this bound "
+    "tolerates).  The floor 32 eps * scale of `tol_for` is granted whether or not a diagonal cost is used and hid, for points matched to "
+    "each other 1e-4 apart near 2^30, errors of 2e-3 of the value",
     "inputs are converted with dtype=float (/repo fix dcbfa71), so the representation (list, float/integer array, Python ints) does not matter: "
     "the model is dtype-free and receives the same numbers as exact rationals",
     "np.sum / BLAS dot agree with the model's left fold and b*(-sp)+d*cp up to rounding (inside the same tolerance)",
@@ -110,21 +121,32 @@ def gen_int_pair(ctx, nmax):
     return {"dgm1": out[0], "dgm2": out[1], "kinds": kinds, "mode": "int", "scale_exp": 0, "eforms": [r.randint(0, 5), r.randint(0, 5)]}
 
 
-def offset_family(ctx, base, k, mode):
+def offset_family(ctx, base, k, mode, wide=False, paired=False):
     """`k` diagrams: `base` and successive tiny perturbations of it (spread delta), all translated along the
     diagonal by an offset T = 1e3..1e6 times the feature size, with delta/T around 1e-8: close points far from
-    the origin, where an expanded-form distance |x|^2 - 2xy + |y|^2 cancels catastrophically"""
+    the origin, where an expanded-form distance |x|^2 - 2xy + |y|^2 cancels catastrophically.
+    wide: T is a power of two 2^20..2^40 (time stamps, e.g. seconds near 2^30) or 1e3..1e9 feature sizes, and T/delta is
+    log-uniform in 1e7..1e12 (values near 2^30 that differ by 1e-4: ratio 1e13/ulp-level 1e-3 of the difference) — the
+    regime in which ANY arithmetic on the coordinates before their differences are formed (rotating, centring, scaling)
+    rounds at ulp(T), i.e. at 1e-9..1e-4 of the differences.  paired: no point is dropped or added, so the diagrams have
+    equal sizes and (for bars much longer than delta) the optimal matching pairs every point with its perturbed copy"""
     g, r = ctx.gen, ctx.rng
     feat = max([1.0] + [abs(x) for p in base for x in p])
-    T = feat * 10.0 ** r.uniform(3, 6)
-    if r.random() < 0.5:
-        T = float(round(T))
-    delta = T * 1e-8 * r.uniform(0.3, 3.0)
+    if wide:
+        T = 2.0 ** r.randint(20, 40) if r.random() < 0.5 else feat * 10.0 ** r.uniform(3, 9)
+        if r.random() < 0.5:
+            T = float(round(T))
+        delta = T / 10.0 ** r.uniform(7, 12)
+    else:
+        T = feat * 10.0 ** r.uniform(3, 6)
+        if r.random() < 0.5:
+            T = float(round(T))
+        delta = T * 1e-8 * r.uniform(0.3, 3.0)
     fam = [[list(p) for p in base]]
     for _ in range(k - 1):
         nxt = []
         for p in fam[-1]:
-            u = r.random()
+            u = 0.5 if paired else r.random()
             if u < 0.08:
                 continue
             b = p[0] + r.uniform(-1, 1) * delta
@@ -141,11 +163,15 @@ def offset_family(ctx, base, k, mode):
 def gen_offset_pair(ctx, nmax):
     g, r = ctx.gen, ctx.rng
     mode = r.choice(["unif", "dec", "lattice", "half"])
-    base = g.diagram(max(1, nmax), mode, allow_diag=True, allow_empty=False, dup=0.2)
-    (d1, d2), T, delta = offset_family(ctx, base, 2, mode)
+    wide = r.random() < 0.6
+    paired = wide and r.random() < 0.6
+    base = g.diagram(max(1, nmax), mode, allow_diag=not paired, allow_empty=False, dup=0.2)
+    (d1, d2), T, delta = offset_family(ctx, base, 2, mode, wide=wide, paired=paired)
     if r.random() < 0.5:
         d1, d2 = d2, d1
     ctx.count("gen:large_offset_tiny_spread")
+    if wide:
+        ctx.count("gen:large_offset_ratio_1e%d%s" % (int(math.floor(math.log10(abs(T) / delta))), "_paired" if paired else ""))
     return {"dgm1": d1, "dgm2": d2, "kinds": [r.choice(["list", "array"]), r.choice(["list", "array"])], "mode": "offset",
             "scale_exp": 0}
 
@@ -526,6 +552,85 @@ def checked(ans, claimed):
 
 # ----------------------------------------------------------------------------- specification, independently
 
+K_ENTRY = 8
+
+
+def entry_matrices(S, T):
+    """(D, E): the augmented matrix of the DEFINITION with every finite entry computed from the exact rational coordinate
+    differences (Fractions; one correctly rounded conversion and one correctly rounded sqrt resp. one division by sqrt 2:
+    relative error < 2 eps), and an entrywise bound E on the rounding error of evaluating that entry IN FLOATING POINT FROM
+    THE GIVEN NUMBERS, each operation once:
+      distance |s - t|:   K eps * |s - t|.  The differences of the coordinates are formed first; a difference of two doubles
+                          is computed with relative error eps/2 (exactly, when they are within a factor 2 of each other), the
+                          squares, their sum and the sqrt add 1.5 eps: relative to the ENTRY, however far from the origin;
+      diagonal cost of p: K eps * max(|b|, |d|, cost).  (d - b)/sqrt 2 evaluated through the rotation b*(-sin) + d*cos (what
+                          the code does, cos(pi/4) and sin(pi/4) being two doubles one ulp apart) carries about
+                          2 eps * max(|b|, |d|): relative to the coordinates entering the subtraction.
+    K = 8 leaves a factor 3-4 over those bounds (measured on the unchanged tree over 3000 offset pairs with
+    |T|/delta = 1e7..1e12: the value uses at most 0.11 of the half-width of the interval below)."""
+    F = Fraction
+    M, N = len(S), len(T)
+    r2 = math.sqrt(2.0)
+    n = M + N
+    D = [[0.0] * n for _ in range(n)]
+    E = [[0.0] * n for _ in range(n)]
+    for i in range(M):
+        for j in range(N):
+            dx, dy = F(S[i][0]) - F(T[j][0]), F(S[i][1]) - F(T[j][1])
+            D[i][j] = math.sqrt(float(dx * dx + dy * dy))
+            E[i][j] = K_ENTRY * EPS * D[i][j]
+        for j in range(M):
+            D[i][N + j] = float(F(S[i][1]) - F(S[i][0])) / r2 if i == j else math.inf
+        E[i][N + i] = K_ENTRY * EPS * max(abs(S[i][0]), abs(S[i][1]), D[i][N + i])
+    for i in range(N):
+        for j in range(N):
+            D[M + i][j] = float(F(T[i][1]) - F(T[i][0])) / r2 if i == j else math.inf
+        E[M + i][i] = K_ENTRY * EPS * max(abs(T[i][0]), abs(T[i][1]), D[M + i][i])
+    return D, E
+
+
+def interval_certificates(case):
+    """`cert.dual` lines and claimed optima for the two ends of the ROUNDING INTERVAL of the specification value:
+    a value min_sigma c^(sigma) computed from entries c^ with |c^ - c| <= E entrywise lies in
+    [min_sigma (c - E)(sigma), min_sigma (c + E)(sigma)], whichever near-optimal assignment the solver picks (for the
+    placeholder of an empty side too: |t| >= (d - b)/sqrt 2).  -> None when both finite parts are empty"""
+    S, T = finite_part(case["dgm1"]), finite_part(case["dgm2"])
+    if not S and not T:
+        return None
+    D, E = entry_matrices(S, T)
+    n = len(D)
+    lo = certificate(None, [[D[i][j] - E[i][j] for j in range(n)] for i in range(n)])
+    hi = certificate(None, [[D[i][j] + E[i][j] for j in range(n)] for i in range(n)])
+    return lo, hi
+
+
+def interval_from(case, ans_lo, ans_hi, certs):
+    """(lo, hi): the certified optima of the matrices c - E and c + E, widened by 1e-9 RELATIVE TO THE VALUE — the
+    tolerance every value comparison of this check uses (it also covers the rounding of the final sum, 2 eps * rows).
+    Against `tol_for` this replaces the floor 32 eps * (largest |coordinate|) * rows, which is granted to every input
+    whether or not its optimal matching uses a diagonal cost, by the error bound of the entries that are actually summed:
+    on a pair of diagrams 1e-4 apart near 2^30 whose points are all matched to each other the old floor was 2e-3 of the
+    value, this one is 1e-9 of it"""
+    lo = float(checked(ans_lo, certs[0][1]))
+    hi = float(checked(ans_hi, certs[1][1]))
+    w = TOL * max(abs(lo), abs(hi))
+    return lo - w, hi + w
+
+
+def rounding_interval(case):
+    """the interval in which a floating-point evaluation of the min-sum matching cost of this input has to lie (see
+    `entry_matrices`), both ends certified by Lean's `cert.dual`; None for two empty finite parts"""
+    certs = interval_certificates(case)
+    if certs is None:
+        return None
+    a = ask([certs[0][0], certs[1][0]])
+    return interval_from(case, a[0], a[1], certs)
+
+
+def in_interval(v, iv):
+    return iv is None or (math.isfinite(v) and iv[0] <= v <= iv[1])
+
+
 def oracle_small(S, T):
     """min over all partial matchings, straight from the definition (math.hypot, (d-b)/sqrt 2)"""
     r2 = math.sqrt(2.0)
@@ -618,6 +723,12 @@ def property_fails(case, code):
         return True, "a point with infinite death was dropped without any warning (value %r, specification %r)" % (v, val)
     if not agree(v, val, scale_of(case), case):
         return True, "code value %r, specification value %r by %s (tolerance %r)" % (v, val, how, tol_for(case, val))
+    iv = rounding_interval(case)
+    if not in_interval(v, iv):
+        return True, ("code value %r, specification value %r by %s: off by %.3g of the value, outside the interval [%r, %r] = 1e-9 of the "
+                      "value + what entrywise rounding of the cost matrix allows (%d eps relative to each distance, %d eps relative to "
+                      "the coordinates of a point for its diagonal cost; Lean cert.dual certified both ends)"
+                      % (v, val, how, abs(v - val) / max(abs(val), 1e-300), iv[0], iv[1], K_ENTRY, K_ENTRY))
     return False, "code value %r equals the specification value %r (%s)" % (v, val, how)
 
 
@@ -755,12 +866,20 @@ def run(ctx):
                 sl.append((len(cert_lines), claimed, Dc, ri, ci))
                 cert_lines.append(line)
         obs_slots.append(sl)
+    # 3c. large-offset pairs: the rounding interval of the specification value (entry_matrices), certified the same way
+    iv_slots = {}
+    for k, c in enumerate(cases):
+        if c.get("mode") == "offset" and not outside_quantifier(c):
+            certs = interval_certificates(c)
+            if certs is not None:
+                iv_slots[k] = (len(cert_lines), certs)
+                cert_lines += [certs[0][0], certs[1][0]]
     cert_answers = ask(cert_lines)
 
     # 4. compare
     deferred = []
     capped = False
-    for c, code, slot, cans, claimed, obs, raw in zip(cases, codes, slots, cert_answers, claims, obs_slots, observed):
+    for kc, (c, code, slot, cans, claimed, obs, raw) in enumerate(zip(cases, codes, slots, cert_answers, claims, obs_slots, observed)):
         m, n, M, N = sizes_of(c)
         ans = answers[slot["matrix"]]
         model_w = (ans[0], ans[1])
@@ -801,6 +920,14 @@ def run(ctx):
                     raise HarnessError("model: exhaustive optimum %r differs from certified optimum %r" % (e[2], certified))
                 if not agree(v, float(e[2]), scale, c):
                     problems.append(("ws.exh", v, float(e[2])))
+        interval_bad = False
+        if kc in iv_slots and st == "ok":
+            pos, certs = iv_slots[kc]
+            iv = interval_from(c, cert_answers[pos], cert_answers[pos + 1], certs)
+            interval_bad = not in_interval(v, iv)
+            ctx.test("large_offset:value_within_entrywise_rounding_interval", not interval_bad)
+            if interval_bad:
+                problems.append(("entrywise rounding interval of the specification value", v, list(iv)))
         if (c1, c2) != model_w:
             problems.append(("warnings", [c1, c2], list(model_w)))
         if not obs:
@@ -831,7 +958,7 @@ def run(ctx):
                 problems.append(("lsa_contract", "assignment returned by scipy: rows %r cols %r" % (ri, ci), "certified optimum %s" % float(opt)))
         if outside_quantifier(c):
             ctx.count("nan_or_neginf_death(model comparison only)")
-        if problems and capped and not cheap_verdict_fails(c, code, certified):
+        if problems and capped and not interval_bad and not cheap_verdict_fails(c, code, certified):
             # after the cap on specification evaluations: the value equals the certified optimum of the model's matrix
             # (= the specification value by theorem), so the property holds here; go on to the remaining, larger, cases
             ctx.count("correspondence_break_after_cap(value = certified optimum)")
@@ -865,7 +992,9 @@ def run(ctx):
     if deferred and not any(found for _, found in ctx.violations):
         for what, rec_ in deferred:
             ctx.violation(what, rec_, found_input=False)
-    ctx.extra["tolerance"] = ("value: min(1e-9 * (largest |coordinate|) * (rows of the augmented matrix), 1e-9*|reference| + 32*eps*(largest |coordinate|)*rows); matrix entries: distance entries exact "
+    ctx.extra["tolerance"] = ("large-offset pairs and every verdict on a disagreement: 1e-9 of the value + the entrywise rounding interval (8 eps per distance "
+                              "entry relative to the entry, 8 eps per diagonal cost relative to the point's coordinates; cert.dual certified); "
+                              "value: min(1e-9 * (largest |coordinate|) * (rows of the augmented matrix), 1e-9*|reference| + 32*eps*(largest |coordinate|)*rows); matrix entries: distance entries exact "
                               "where the arithmetic is exact, else 1e-9 relative to the entry; diagonal-cost entries 1e-9 * |coordinates of the point|")
 
 
@@ -952,7 +1081,10 @@ MANIFEST = {
             "int32/int16/uint8/int64 arrays, Python ints) — the model is dtype-free.",
     "note": "Trusted: Lean kernel + Mathlib (axioms propext/Classical.choice/Quot.sound); the correspondence harness; scipy's "
             "linear_sum_assignment contract (certified per run, not proved); np.sqrt of the summed squared coordinate differences = "
-            "Euclidean distance up to rounding (tolerance 1e-9*scale, and never more than 1e-9*|value| + 32 eps*scale; the matrix handed to scipy is compared ENTRY BY ENTRY with the "
+            "Euclidean distance up to rounding (tolerance 1e-9*scale, and never more than 1e-9*|value| + 32 eps*scale; for a failing input, and on every "
+            "'large offset, tiny spread' pair - offsets up to 2^40, offset/difference ratios 1e7..1e12 - additionally 1e-9*|value| + the entrywise rounding "
+            "interval [min-sum(c-E), min-sum(c+E)], E = 8 eps relative to each distance entry resp. to the coordinates of a point for its diagonal cost, both "
+            "ends certified by cert.dual; the matrix handed to scipy is compared ENTRY BY ENTRY with the "
             "model's: same infinity pattern, exact where the arithmetic is exact); IEEE rounding is outside the theorems. [T] lsa_contract: every "
             "matrix the real routine hands to scipy is observed in-process and the assignment scipy returned is compared with that "
             "matrix's optimum, certified by the same Lean-checked dual certificate. A failing input is claimed only inside the statement's "
